@@ -62,6 +62,19 @@ def c14_scenarios(tier, seed):
         prop = {"body": [draw(g("Custom", elem=g("Int8"), body=cbody, fresh=True), "c"), draw(g("Bool"), "b")]}
         out.append(scenario("c14-custom-workers-%d" % i, prop, dict(base, seed=rng.randrange(1, 1 << 64), checks=3),
                             tag={"methods": "errorf from workers of a Custom function", "goroutines": 3}))
+    # the property's own goroutine fails fatally while goroutines it started are still reporting non-fatal failures (joined by a cleanup)
+    for i in range(3 if tier == "quick" else 20):
+        kind = ["fatalf", "failnow", "fatal"][i % 3]
+        prop = {"body": [op("cleanup", body=[op("join")]), op("goasync", n=4, text="quiet", ms=200 if tier == "quick" else 2000, body=[METHODS[rng.choice(["errorf", "fail", "error"])]()]),
+                         draw(g("Bool"), "b"), op(kind, site=1)]}
+        out.append(scenario("c14-fatal-while-errorf-%d" % i, prop, dict(base, seed=rng.randrange(1, 1 << 64), checks=3),
+                            tag={"methods": kind + " vs errorf from goroutines", "goroutines": 4}))
+    # workers that keep asking for the context while the test case ends and its cleanups run (joined by the first-registered cleanup):
+    # whatever they are handed is cancelled by the time the next test case begins
+    for i in range(3 if tier == "quick" else 20):
+        prop = {"body": [op("cleanup", body=[op("join")]), op("ctx", text="main"), op("goasync", n=6, ms=15, body=[op("ctx", text="g", val="changes")]), draw(g("Bool"), "b")]}
+        out.append(scenario("c14-ctx-during-cleanup-%d" % i, prop, dict(base, seed=rng.randrange(1, 1 << 64), checks=400 if tier == "quick" else 3000),
+                            tag={"methods": "Context() while cleanup() runs", "goroutines": 6}))
     # goroutines that are still registering cleanups while the engine already runs the test case's cleanups
     for i in range(reps):
         prop = {"body": [op("cleanup", body=[op("join")]), op("goasync", n=rng.choice([4, 8]), ms=rng.choice([50, 150]), body=[op("cleanup", body=[])]),
